@@ -95,6 +95,13 @@ func (d *driver) runSqrtCase(w emitter, k int, c *sqrtCase) {
 			v.Mul(v, v).Mod(v, modP)
 			d.sqrtEvent(w, k, "square", v)
 		}
+	case "yside":
+		// x-coordinates built from the y side: the larger root sits at the boundary of the sign choice ((p-1)/2 limb by limb, p-1)
+		for i := 0; i < c.N; i++ {
+			dc := decCase{Fn: "SetBytesUncompressed", Cls: []string{"yhalf", "yhalf64", "yhalf128", "yhalf192", "ytop"}[i%5]}
+			buf := (&driver{seed: d.seed + k}).decodeInput(&dc, i)
+			d.pointEvent(w, k, "yside/"+dc.Cls, new(big.Int).SetBytes(buf[:32]))
+		}
 	case "point":
 		for i := 0; i < c.N; i++ {
 			v := rnd.big(300)
